@@ -133,7 +133,8 @@ class _Extract:
                     # R8 over an iterator expression: `for X in <EXPR>` where <EXPR> (whitespace-normalised) must be the
                     # declared one; the elements are those of the Vec `<vec_fn>(..)` declared by the unit (its contract
                     # states which elements, in which order, the iterator yields)
-                    want_expr, vec_decl, vec_name = over
+                    want_expr, vec_decl, vec_name = over[:3]
+                    elem = (over[3] if len(over) > 3 else '{v}[{i}]').format(v=vec_name, i=iname)   # how element i is obtained
                     mh = re.match(r'for\s+([A-Za-z_][A-Za-z0-9_]*)\s+in\s+(.*?)\s*$', head, re.S)
                     got = norm_ws(item.src.text[kw:ob]).split(' in ', 1)[1].strip() if mh else None
                     if not mh or got != norm_ws(want_expr):
@@ -142,8 +143,8 @@ class _Extract:
                         raise LostAnchor('%s: loop #%d contains `continue`; R8 desugaring refused' % (item.name, k))
                     x = mh.group(1)
                     cuts.append((kw - item.start, ob + 1 - item.start,
-                                 '%s\n        let mut %s: usize = 0;\n        while %s < %s.len()\n%s\n        {\n            let %s = %s[%s];'
-                                 % (vec_decl, iname, iname, vec_name, clauses.strip('\n'), x, vec_name, iname)))
+                                 '%s\n        let mut %s: usize = 0;\n        while %s < %s.len()\n%s\n        {\n            let %s = %s;'
+                                 % (vec_decl, iname, iname, vec_name, clauses.strip('\n'), x, elem)))
                     self.applied.append(('R8-desugar `for %s in %s` into an index loop over `%s`' % (x, want_expr, vec_decl), 1))
                 else:
                     mh = re.match(r'for\s+([A-Za-z_][A-Za-z0-9_]*)\s+in\s+&(mut\s+)?([A-Za-z_][A-Za-z0-9_.]*)\s*$', head)
